@@ -1,3 +1,4 @@
+import Generated.Facts
 import DdsProofs.Hash
 /-!
 # C05 — value hashing is total, deterministic and collision-free on supported values
@@ -69,5 +70,8 @@ theorem full_false_int_str : ddsHash 10 (.int 1094861636) = ddsHash 10 (.str "AB
 /-- non-vacuity: values that do hash, and do differ -/
 example : ∃ h, ddsHash 10 (.list [.int 1, .str "a"]) = .ok h := ⟨_, rfl⟩
 example : ddsHash 10 (.list [.int 1]) ≠ ddsHash 10 (.list [.int 2]) := by decide +kernel
+
+/-- the sentinel strings of `dds_hash` are re-read from the source on every run -/
+theorem sentinels_table : Facts.hashSentinels = ["__DDS_INT__", noneSentinel] := by decide
 
 end Dds.C05
